@@ -13,6 +13,7 @@ import re
 
 from .. import mirg, taint
 from ..mirg import plocal, pproj, op_local
+from ..mirg import rvalue_operands as rvalue_ops
 from ..rules import ncallee, norm
 
 META = {
@@ -118,6 +119,7 @@ def run(ctx):
     R_alloc = ctx.rule("C05.A-no-input-sized-allocation", "no allocation size derives from input without a dominating bound check / min / checked op", floor=100)
     R_arith = ctx.rule("C05.C-no-unchecked-input-arithmetic", "no overflow-checked subtraction/addition/multiplication on input-derived operands without a dominating ordering check", floor=40)
     R_index = ctx.rule("C05.D-no-constant-index-on-unchecked-buffer", "no `buf[k]` (constant k) on a buffer whose length is input-controlled and was not checked", floor=5)
+    R_fixed = ctx.rule("C05.F-input-index-into-fixed-array-bounded", "every input-derived component of an index into a fixed-size array is clamped or compared on its own path", floor=20)
     R_rec = ctx.rule("C05.E-no-unbounded-recursion", "no call-graph cycle reachable from an entry point lacks a depth bound", floor=1)
 
     cg = mirg.CallGraph(crates)
@@ -216,6 +218,85 @@ def run(ctx):
                 key = "C|%s|%s" % (path, opk)
                 ctx.bad(R_arith, key, "%s:%d" % (f.file, t["ln"]), "overflow-checked %s on input-derived operand(s) (%s) with no ordering check before it" % (opk, ", ".join(w for w in whys if w)),
                         "hostile field values panic the parser in debug builds and wrap in release (then size allocations / slice bounds)")
+            elif t["k"] == "assert" and t["ak"] == "bounds" and not t.get("x") and mirg.op_int(t["ops"][0]) is not None and mirg.op_int(t["ops"][1]) is None:
+                # F: index into a fixed-size array (constant length): every input-derived additive/multiplicative leaf of the
+                # index must itself be bounded (a clamp on one coordinate does not bound the other)
+                du = ft.du if getattr(ft, "du", None) is not None else mirg.DefUse(f)
+                n_arr = mirg.op_int(t["ops"][0])
+                leaves, seen_l, stack = [], set(), [op_local(t["ops"][1])]
+                while stack:
+                    l_ = stack.pop()
+                    if l_ is None or l_ in seen_l:
+                        continue
+                    seen_l.add(l_)
+                    ds = du.defs.get(l_, [])
+                    arith = [p_ for _b, k_, p_ in ds if k_ == "assign" and ((p_[2][0] == "bin" and re.match(r"(Add|Mul|Sub)", p_[2][1])) or p_[2][0] in ("use", "cast", "copy", "move"))]
+                    if ds and len(arith) == len(ds):
+                        for p_ in arith:
+                            for o_ in mirg.rvalue_operands(p_[2]):
+                                stack.append(op_local(o_))
+                    else:
+                        leaves.append(l_)
+                crate_ = prog.crate(path.split("::")[0]) if path.split("::")[0] in CRATES else None
+                TYMAX = {"u8": 255, "u16": 65535, "bool": 1}
+
+                def ub(l_, depth=0):
+                    """static upper bound of a local from its type, masks and constant arithmetic (None = unknown)"""
+                    if l_ is None or depth > 8:
+                        return None
+                    tname = crate_.ty(f.mir["locals"][l_][0]) if crate_ is not None else None
+                    best = TYMAX.get(tname)
+                    ds_ = du.defs.get(l_, [])
+                    if len(ds_) == 1 and ds_[0][1] == "assign":
+                        rv = ds_[0][2][2]
+
+                        def oub(o_):
+                            v_ = mirg.op_int(o_)
+                            if v_ is not None:
+                                return v_
+                            pl = o_[1] if o_[0] in ("c", "m") else None
+                            if pl is not None and pproj(pl) and not (len(pproj(pl)) == 1 and pproj(pl)[0] == 0):
+                                return None       # a field / element of something else
+                            return ub(op_local(o_), depth + 1)
+                        cand = None
+                        if rv[0] in ("use", "cast"):
+                            cand = oub(rvalue_ops(rv)[0])
+                        elif rv[0] == "bin":
+                            a_, b_ = oub(rv[2]), oub(rv[3])
+                            opn = rv[1]
+                            if opn == "BitAnd":
+                                cand = min(x for x in (a_, b_) if x is not None) if (a_ is not None or b_ is not None) else None
+                            elif opn.startswith("Add") and a_ is not None and b_ is not None:
+                                cand = a_ + b_
+                            elif opn.startswith("Mul") and a_ is not None and b_ is not None:
+                                cand = a_ * b_
+                            elif opn == "Rem" and b_ is not None and mirg.op_int(rv[3]) is not None:
+                                cand = b_ - 1
+                            elif opn in ("Shr", "Div", "ShrUnchecked") and a_ is not None:
+                                cand = a_
+                            elif opn.startswith("Sub") and a_ is not None:
+                                cand = a_
+                        if cand is not None:
+                            best = cand if best is None else min(best, cand)
+                    return best
+                bound = ub(op_local(t["ops"][1]))
+                if bound is not None and bound < mirg.op_int(t["ops"][0]):
+                    ctx.call_sites += 1
+                    ctx.ok(R_fixed, {"fn": path, "array_len": mirg.op_int(t["ops"][0]), "line": t["ln"], "index_upper_bound": bound})
+                    continue
+                unb = []
+                for l_ in leaves:
+                    w_ = ft.operand_tainted(["c", l_])
+                    if w_ and not ft.sanitised(["c", l_], bb, strict=True):
+                        unb.append((l_, w_))
+                inst = {"fn": path, "array_len": n_arr, "line": t["ln"]}
+                ctx.call_sites += 1
+                if not unb:
+                    ctx.ok(R_fixed, inst)
+                else:
+                    nm = f.mir["locals"][unb[0][0]][1] or "_%d" % unb[0][0]
+                    ctx.bad(R_fixed, "F|%s|[%d]|%s" % (path, n_arr, unb[0][1].split("→")[0]), "%s:%d" % (f.file, t["ln"]), "index into a %d-element array built from `%s`, which derives from input (%s) with no clamp / ordering check of its own" % (n_arr, nm, unb[0][1]),
+                            "a hostile field value indexes past the fixed array: index-out-of-bounds panic instead of an error")
             elif t["k"] == "never-matches":
                 idx = t["ops"][1] if len(t["ops"]) > 1 else None
                 ln_ = t["ops"][0] if t["ops"] else None
@@ -234,6 +315,62 @@ def run(ctx):
                 else:
                     ctx.bad(R_index, "D|%s|[%d]" % (path, mirg.op_int(idx)), "%s:%d" % (f.file, t["ln"]), "constant index [%d] into a buffer whose length is input-controlled (%s) and unchecked" % (mirg.op_int(idx), lw),
                             "an empty/short buffer panics with index out of bounds")
+
+    # G: cyclic probe loops over a table taken from an opened archive terminate when the table has no free slot
+    from .. import hirq, symx
+    R_probe = ctx.rule("C05.G-cyclic-probe-loops-wrap-exit", "every `loop` stepping `i = (i + 1) & mask` over an archive's table exits when i returns to its starting value (a full table cannot hang the lookup)", floor=3)
+    mpq_c = prog.crate("wow_mpq")
+    consts_ = {k: v.get("v") for k, v in mpq_c.consts().items()}
+    for f in mpq_c.fn_list:
+        if f.kind == "Closure" or not f.hir or "::tests::" in f.path or "::debug::" in f.path or "::test_utils" in f.path:
+            continue
+        blk = hirq.strip(f.hir["body"])
+        if blk.get("k") != "block":
+            continue
+        s_ = symx.Sym(consts_)
+        for p_ in f.hir["params"]:
+            for b_ in hirq.pat_binds(p_):
+                s_.env[b_] = symx.var(b_)
+        for st in blk.get("stmts", []) + ([blk["e"]] if blk.get("e") else []):
+            lp = st if st.get("k") == "loop" else None
+            if lp is None:
+                try:
+                    s_.stmt(st)
+                except Exception:
+                    pass
+                continue
+            idx = None
+            for x in hirq.walk(lp["body"]):
+                if x.get("k") == "assign" and hirq.strip(x["l"]).get("k") == "path":
+                    nm = hirq.strip(x["l"])["res"].get("local")
+                    if nm and re.search(r"\(\(%s \+ 1\) &" % re.escape(nm), hirq.render(x["r"])):
+                        idx = nm
+            if idx is None:
+                continue
+            ctx.saw_fn(f)
+            key = "G|%s" % norm(f.path)
+            if norm(f.path).startswith("wow_mpq::builder::"):
+                ctx.ok(R_probe, {"fn": norm(f.path), "scope": "writer-side insertion into a table the builder sized itself; not an input-handling path"})
+                continue
+            start = s_.env.get(idx)
+            exits = []
+            for n in hirq.find(lp["body"], "if"):
+                c = hirq.strip(n["c"])
+                if c.get("k") == "bin" and c["op"] == "==" and any(hirq.strip(c[sd]).get("k") == "path" and hirq.strip(c[sd])["res"].get("local") == idx for sd in ("l", "r")) \
+                        and any(y.get("k") in ("ret", "break") for y in hirq.walk(n["then"])):
+                    other = c["r"] if hirq.strip(c["l"]).get("k") == "path" and hirq.strip(c["l"])["res"].get("local") == idx else c["l"]
+                    try:
+                        exits.append((symx.render(s_.ev(other)), n["ln"]))
+                    except Exception as e_:
+                        exits.append(("?%s" % e_, n["ln"]))
+            rs = symx.render(start) if start is not None else None
+            if rs is not None and any(e_[0] == rs for e_ in exits):
+                ctx.ok(R_probe, {"fn": norm(f.path), "start": rs[:80], "wrap_exit_line": next(e_[1] for e_ in exits if e_[0] == rs)})
+            elif any(y.get("k") == "for" for y in hirq.walk(lp["body"])) and False:
+                pass
+            else:
+                ctx.bad(R_probe, key, "%s:%d" % (f.file, lp["ln"]), "probe loop over `%s` starts at `%s`; exits comparing the index: %s" % (idx, (rs or "?")[:70], [e_[0][:60] for e_ in exits] or "none"),
+                        "with no never-used slot in the table (every slot occupied or a tombstone — an attacker-chosen or simply full table) a lookup of an absent name never returns")
 
     # recursion
     graph = {}
